@@ -437,6 +437,28 @@ struct RandomEvaluatorImpl<BundleBase<Derived>>
   }
 };
 
+/**
+ * @brief Cast specialization for Bundle objects,
+ * casts element-wise so that each element is valid in the new scalar type.
+ */
+template <typename Derived, typename NewScalar>
+struct CastEvaluatorImpl<BundleBase<Derived>, NewScalar>
+{
+  using NewLieGroup = typename Derived::template LieGroupTemplate<NewScalar>;
+
+  template <typename T>
+  static NewLieGroup run(const T & o)
+  {
+    return run(o, internal::make_intseq_t<Derived::BundleSize>{});
+  }
+
+  template <typename T, int ... _Idx>
+  static NewLieGroup run(const T & o, internal::intseq<_Idx...>)
+  {
+    return NewLieGroup(o.template element<_Idx>().template cast<NewScalar>() ...);
+  }
+};
+
 }  // namespace internal
 }  // namespace manif
 
